@@ -729,16 +729,20 @@ def rules(repo=None):
 
 
 EXPLANATION = (
-    "R1: type-resolved backward slice of the outputs of the five naming/conversion functions contains no floating-typed "
-    "node, <math.h> call or sample_rate read. R2: those functions read only parameters and the five configuration fields "
+    'R1: type-resolved backward slice of the outputs of the five naming/conversion functions contains no floating-typed '
+    'node, <math.h> call or sample_rate read. R2: those functions read only parameters and the five configuration fields '
     "(stored once, in the constructor), store no state, read no clock. R3: the file's first sample and the next file's "
-    "first sample are each obtained by the ceil helper from exactly the (second, millisecond) printed into the name / that "
-    "plus one cadence; samples_left and max_samples are their differences. R4: file_exists=1 only if both strcmp()s report "
-    "equality, and a changed name reaches digital_rf_create_hdf5_file before any H5Dwrite. R5: the three cadence tests "
-    "reject in both constructors. R6: writer/reader/listing name formats agree (regular-language inclusion). R7: the two places "
-    "that cut a block at a file boundary (inside and after the block loop of digital_rf_create_rf_data_index) use the same linear "
-    "form (contradiction rule). R8: whenever a file is created the remembered sub_directory field (from which the path is built) has been "
-    "set to or compared equal with the sub-directory computed for this sample. Does NOT decide that the floor/ceil arithmetic is right.")
+    'first sample are each obtained by the ceil helper from exactly the (second, millisecond) printed into the name / '
+    'that plus one cadence; samples_left and max_samples are their differences. R4: file_exists=1 only if both strcmp()s '
+    'report equality, and a changed name reaches digital_rf_create_hdf5_file before any H5Dwrite. R5: the three cadence '
+    'tests reject in both constructors. R6: writer/reader/listing name formats agree (regular-language inclusion). R7: '
+    'the two places that cut a block at a file boundary (inside and after the block loop of '
+    'digital_rf_create_rf_data_index) use the same linear form (contradiction rule). R8: whenever a file is created the '
+    'remembered sub_directory field (from which the path is built) has been set to or compared equal with the sub-'
+    "directory computed for this sample. R2 also: the C library's calendar functions (gmtime, localtime, their _r "
+    'variants, mktime ...) count as impure - they read the TZ database and gmtime / localtime share one static buffer '
+    "between threads - and the Python functions that render a sub-directory name (strftime('%Y-%m-%dT%H-%M-%S')) do not "
+    'call fromtimestamp / utcfromtimestamp / time.gmtime. Does NOT decide that the floor/ceil arithmetic is right.')
 TECHNIQUE = ('clang JSON AST; typed backward slice (integer-only); purity/effects of naming functions and their helpers; def-use pairing of floor/ceil helpers; CFG must-pass; linear-form sibling comparison')
 ASSUMPTIONS = ["clang's expression types are the types the compiler uses", "gmtime is a pure function of its argument"]
 FILES = [C_LIB, "python/digital_rf/digital_rf_hdf5.py", "python/digital_rf/list_drf.py"]
